@@ -16,4 +16,4 @@ def replay(ctx, rec):
     return layout_engine.replay(ctx, 'C12', rec)
 
 
-CLAIM = {'text': 'PARTIAL, two known findings. The full statement (C12_full) is REFUTED on the faithful model and on the real assembler by two independent families: K1 (C12_refuted: an align between a transfer and its target absorbs what compression saves) and K2 (C12_refuted_label_arithmetic: the absolute value of a label inside a non-transfer immediate at the edge of its range; not repairable). Proved: C12_no_align_labels_never_apart -- in a program without align directives compression never moves two labels apart (so K1 needs the align); and (C12_*_partial): whenever the generated selection picks a rule the generated c.* encoder ACCEPTS the constructed operands (all spellings, all integers) -- so compression cannot introduce an encode failure on a settled immediate; rules and the li size decision are consulted only on settled values (label-free, not position-relative) or jump-to-label distances. Missing: monotonicity of label distances after the decision and the whole-program induction; the full statement is decided by the falsifier: every generated program that assembles without -c must assemble with it (scenarios: constants/aliases as shift amounts, label-dependent immediates at RVC edges, far call/tail in every low-12-bit band, constants as jump targets, explicit %offset in non-jump instructions, li of position-relative values). The proof attempt exposed D18/D19 (position-relative decisions), re-found by the check and fixed in /repo.', 'note': 'Trusted: as C04. The theorem level reached is per-rule acceptance + decision stability, not the whole-program implication.', 'technique': 'Coq proof of per-rule acceptance (sweeps) and decision stability; two-mode differential falsifier', 'design': '6/C12'}
+CLAIM = {'text': 'PROVED ON A STATED CLASS, REFUTED OUTSIDE IT (three known findings). The full statement (C12_full) is refuted on the faithful model and on the real assembler by three independent families: K1 (C12_refuted: an align between a transfer and its target absorbs what compression saves), K2 (C12_refuted_label_arithmetic: the absolute value of a label inside a non-transfer immediate at the edge of its range) and K3 (C12_refuted_offset_of_constant: the distance to a CONSTANT, an absolute position, as branch / jump target or through %offset; found while proving the positive half); none is repairable by a small patch. THE POSITIVE HALF IS A THEOREM (Proofs/Accept*.v, 13 files, sub-agent): C12_accepts_without_align_and_label_arithmetic -- for every program of the boolean class accept_class_gen (parser-shaped items, no align, every expression label-free and not position-relative EXCEPT %offset(L) to a label L of the program as the target of B- / J-type instructions and of beqz..bleu, j, jal, call, tail, and EXCEPT data values that are exactly a label name; no labels handed in, any constants, below 2 GiB), if the model assembles it without compression it assembles it with compression (an existence proof: every stage of the compressed run is shown not to fail -- the compression pass on shaped instructions with valid registers, rule soundness pushed through the construction rows, the pseudo pass of both runs in lockstep, every distance to a label moving towards zero with its parity kept, the range checks of the generated encoders monotone in |distance|); C12_accepts_without_calls -- the same without call / tail and without the size bound. Proved: C12_no_align_labels_never_apart -- in a program without align directives compression never moves two labels apart (so K1 needs the align); and (C12_*_partial): whenever the generated selection picks a rule the generated c.* encoder ACCEPTS the constructed operands (all spellings, all integers) -- so compression cannot introduce an encode failure on a settled immediate; rules and the li size decision are consulted only on settled values (label-free, not position-relative) or jump-to-label distances. Missing: monotonicity of label distances after the decision and the whole-program induction; the full statement is decided by the falsifier: every generated program that assembles without -c must assemble with it (scenarios: constants/aliases as shift amounts, label-dependent immediates at RVC edges, far call/tail in every low-12-bit band, constants as jump targets, explicit %offset in non-jump instructions, li of position-relative values). The proof attempt exposed D18/D19 (position-relative decisions), re-found by the check and fixed in /repo.', 'note': 'Trusted: as C04. The theorem level reached is per-rule acceptance + decision stability, not the whole-program implication.', 'technique': 'Coq proof of per-rule acceptance (sweeps) and decision stability; two-mode differential falsifier', 'design': '6/C12'}
